@@ -90,7 +90,9 @@ RespExplained(e) ==
       disk == [a \in DOMAIN mem |-> Rng(e.disk[a])]
       G == [a \in DOMAIN mem |-> ExpiredIds(mem[a], op.now) \ disk[a]]
       must == MustPurge(mem, op)
-  IN IF (\A a \in DOMAIN mem : must[a] \subseteq G[a]) /\ FreshOk(op, e.res)
+      \* an operation refused at the gate (wrong key, disabled location) never walks the state: it purges nothing
+      refused == e.res.c \in {"denied", "disabled"}
+  IN IF (refused \/ \A a \in DOMAIN mem : must[a] \subseteq G[a]) /\ FreshOk(op, e.res)
      THEN {o \in Step(mem, ro, op, G) : RespMatch(op, o.resp, e.res)}
      ELSE {}
 DiskOk(m, e) == \A a \in DOMAIN mem : DOMAIN m[a] = Rng(e.disk[a])
